@@ -122,6 +122,9 @@ type Op struct {
 	Row  int    `json:"row"`
 	G    string `json:"g,omitempty"`
 	Text string `json:"text,omitempty"`
+	// Split > 0: the text is handed over as two segments, cut before
+	// cluster number Split
+	Split int `json:"split,omitempty"`
 }
 
 type ccase struct {
@@ -226,6 +229,13 @@ func (e *env) run(cc ccase) {
 		w.Violation("window:origin", fmt.Sprintf("window origin (%d,%d), expected (%d,%d)", gx, gy, ox, oy), cc, fmt.Sprintf("%d,%d", gx, gy), fmt.Sprintf("%d,%d", ox, oy))
 	}
 	st := drawStyle.ToVaxis()
+	segs := []vaxis.Segment{{Text: cc.Op.Text, Style: st}}
+	if cc.Op.Split > 0 {
+		cls := clusters(cc.Op.Text)
+		if cc.Op.Split < len(cls) {
+			segs = []vaxis.Segment{{Text: strings.Join(cls[:cc.Op.Split], ""), Style: st}, {Text: strings.Join(cls[cc.Op.Split:], ""), Style: st}}
+		}
+	}
 	val, stack, panicked := harness.Recover(func() {
 		switch cc.Op.Kind {
 		case "setcell":
@@ -237,13 +247,13 @@ func (e *env) run(cc ccase) {
 		case "clear":
 			win.Clear()
 		case "print":
-			win.Print(vaxis.Segment{Text: cc.Op.Text, Style: st})
+			win.Print(segs...)
 		case "truncate":
-			win.PrintTruncate(cc.Op.Row, vaxis.Segment{Text: cc.Op.Text, Style: st})
+			win.PrintTruncate(cc.Op.Row, segs...)
 		case "println":
-			win.Println(cc.Op.Row, vaxis.Segment{Text: cc.Op.Text, Style: st})
+			win.Println(cc.Op.Row, segs...)
 		case "wrap":
-			win.Wrap(vaxis.Segment{Text: cc.Op.Text, Style: st})
+			win.Wrap(segs...)
 		}
 		e.sess.Vx.Render()
 	})
@@ -615,7 +625,7 @@ func (c check) Run(w *harness.W, b harness.Batch) {
 		}
 		w.Count("exhaustive_spaces", 1)
 	case "text":
-		alpha := []string{"a", "\u4f60", "e\u0301", "\t", "\n", " "}
+		alpha := []string{"a", "\u4f60", "e\u0301", "\t", "\n", " ", "\r\n"}
 		n := len(alpha)
 		k := 0
 		for l := 1; l <= s.Len; l++ {
@@ -629,7 +639,7 @@ func (c check) Run(w *harness.W, b harness.Batch) {
 				single := true
 				for _, i := range idx {
 					sb.WriteString(alpha[i])
-					if alpha[i] == "\n" {
+					if alpha[i] == "\n" || alpha[i] == "\r\n" {
 						single = false
 					}
 				}
@@ -647,12 +657,16 @@ func (c check) Run(w *harness.W, b harness.Batch) {
 							y0 = r.Intn(scrRows - wh + 1)
 						}
 						chain := []WinSpec{{x0, y0, ww, wh, false}}
-						e.run(ccase{caps, chain, Op{Kind: "print", Text: text}})
-						e.run(ccase{caps, chain, Op{Kind: "wrap", Text: text}})
+						split := 0
+						if l > 1 && t == 1 {
+							split = 1 + r.Intn(l-1) // the same text as two segments
+						}
+						e.run(ccase{caps, chain, Op{Kind: "print", Text: text, Split: split}})
+						e.run(ccase{caps, chain, Op{Kind: "wrap", Text: text, Split: split}})
 						if single {
 							row := r.Intn(scrRows+2) - 1
-							e.run(ccase{caps, chain, Op{Kind: "println", Row: row, Text: text}})
-							e.run(ccase{caps, chain, Op{Kind: "truncate", Row: row, Text: text}})
+							e.run(ccase{caps, chain, Op{Kind: "println", Row: row, Text: text, Split: split}})
+							e.run(ccase{caps, chain, Op{Kind: "truncate", Row: row, Text: text, Split: split}})
 						}
 					}
 				}
@@ -683,6 +697,9 @@ func (c check) Run(w *harness.W, b harness.Batch) {
 			op.Text = texts[r.Intn(len(texts))]
 			if op.Kind == "println" || op.Kind == "truncate" {
 				op.Text = strings.ReplaceAll(op.Text, "\n", " ")
+			}
+			if r.Intn(2) == 0 {
+				op.Split = 1 + r.Intn(6)
 			}
 			e.run(ccase{caps, chain, op})
 		}
